@@ -1,3 +1,8 @@
 import MTVerif.Model.Ty
 import MTVerif.Model.Eqv
 import MTVerif.Model.Infer
+import MTVerif.Lemmas.Basic
+import MTVerif.Lemmas.EqvSound
+import MTVerif.Lemmas.Sound
+import MTVerif.Lemmas.ShrinkSound
+import MTVerif.Props.C04
